@@ -409,7 +409,22 @@ func (c *Client) SendProtobufParallelWithDecoder(nodes []*network.ServerIdentity
 			return node, nil
 		case err := <-errChan:
 			if opt.Quit() {
-				close(done)
+				// A worker may be accepting a reply right now: it holds the
+				// decoding lock from its check of done to its close of done.
+				// Close done under that lock and only if it is still open, and
+				// if a reply has been accepted in the meantime, return it.
+				decoding.Lock()
+				select {
+				case <-done:
+				default:
+					close(done)
+				}
+				decoding.Unlock()
+				select {
+				case node := <-decodedChan:
+					return node, nil
+				default:
+				}
 				return nil, err
 			}
 			errs = append(errs, xerrors.Errorf("sending: %v", err))
